@@ -957,3 +957,166 @@ func runC07_15(c *core.Ctx) {
 	c.Check(closes >= acquired, cl.Name, "closes every descriptor of the poller", cl.Decl.Pos(), itoa(closes)+" close sites for "+itoa(acquired)+" descriptors ("+strings.Join(what, ", ")+")",
 		"Poller.Close has "+itoa(closes)+" close(2) call site(s) but OpenPoller acquires "+itoa(acquired)+" descriptor(s) ("+strings.Join(what, ", ")+"): a descriptor of every poller stays open after the engine stopped")
 }
+
+func init() {
+	register(&core.Rule{ID: "C07.16", Prop: "C07", MinSites: 1,
+		Desc: "a listener that cannot be finished is closed, one that could not be opened is not: in every function that calls ln.open(), the failure edge of open never reaches ln.close() (the socket helpers already closed the descriptor they report), and once open succeeded no return can carry an error of a later step unless ln.close() ran – directly or in a deferred closure guarded by that error",
+		Run: runC07_16})
+}
+
+func runC07_16(c *core.Ctx) {
+	v := vocabOf(c)
+	if v == nil {
+		return
+	}
+	openFn := c.P.Func("", "listener.open")
+	closeFn := c.P.Func("", "listener.close")
+	if !c.Need("listener.open", openFn) || !c.Need("listener.close", closeFn) {
+		return
+	}
+	sites := 0
+	for _, f := range v.funcs {
+		if f.Decl.Body == nil || f.Obj == openFn {
+			continue
+		}
+		var prodStmt *ast.AssignStmt
+		var holder, errObj types.Object
+		ast.Inspect(f.Decl.Body, func(n ast.Node) bool {
+			if _, ok := n.(*ast.FuncLit); ok {
+				return false
+			}
+			as, ok := n.(*ast.AssignStmt)
+			if !ok || len(as.Rhs) != 1 || len(as.Lhs) != 1 {
+				return true
+			}
+			call, ok := ast.Unparen(as.Rhs[0]).(*ast.CallExpr)
+			if !ok || !flow.IsCall(f.Info, call, openFn) {
+				return true
+			}
+			if r := flow.Recv(call); r != nil {
+				prodStmt, holder, errObj = as, flow.ObjOf(f.Info, r), flow.ObjOf(f.Info, as.Lhs[0])
+			}
+			return true
+		})
+		if prodStmt == nil || holder == nil || errObj == nil {
+			continue
+		}
+		sites++
+		isHolderClose := func(call *ast.CallExpr, info *types.Info) bool {
+			if !flow.IsCall(info, call, closeFn) {
+				return false
+			}
+			r := flow.Recv(call)
+			return r != nil && flow.ObjOf(info, r) == holder
+		}
+		// deferred closers of the holder, guarded by the error result
+		deferCloses := false
+		for _, d := range f.Graph().Defers {
+			if fl, ok := d.Call.Fun.(*ast.FuncLit); ok {
+				for _, call := range callsIn(fl.Body, true) {
+					if isHolderClose(call, f.Info) {
+						deferCloses = true
+					}
+				}
+			}
+		}
+		const (
+			sIdle = iota
+			sUnchecked
+			sFailed
+			sHeld
+			sHeldMaybeErr
+			sHeldErr
+			sClosed
+		)
+		type bad struct {
+			pos token.Pos
+			msg string
+		}
+		var bads []bad
+		record := false
+		au := &flow.Auto{Start: sIdle}
+		au.Node = func(b *flow.Block, i int, n ast.Node, st int) int {
+			if n == ast.Node(prodStmt) {
+				return sUnchecked
+			}
+			for _, call := range flow.Calls(n) {
+				if isHolderClose(call, f.Info) {
+					if st == sFailed && record {
+						bads = append(bads, bad{call.Pos(), "ln.close() runs although ln.open() failed: the socket helper has already closed the descriptor whose number it reports, so this closes the number a second time – by then possibly somebody else's descriptor"})
+					}
+					if st >= sHeld {
+						st = sClosed
+					}
+				}
+			}
+			if as, ok := n.(*ast.AssignStmt); ok && n != ast.Node(prodStmt) && (st == sHeld || st == sHeldMaybeErr) {
+				for _, l := range as.Lhs {
+					if flow.ObjOf(f.Info, l) == errObj {
+						st = sHeldMaybeErr
+					}
+				}
+			}
+			return st
+		}
+		au.Edge = func(e *flow.Edge, st int) int {
+			if e.Cond == nil || e.Tag != nil {
+				return st
+			}
+			x, y, op, ok := flow.Cmp(e.Cond)
+			if !ok || !flow.IsNil(f.Info, y) || flow.ObjOf(f.Info, x) != errObj {
+				return st
+			}
+			failed := (op == token.NEQ) == e.Sense
+			switch st {
+			case sUnchecked:
+				if failed {
+					return sFailed
+				}
+				return sHeld
+			case sHeldMaybeErr:
+				if failed {
+					return sHeldErr
+				}
+				return sHeld
+			}
+			return st
+		}
+		g := f.Graph()
+		sol := g.Run(au)
+		record = true
+		for _, b := range g.Blocks {
+			if !sol.Seen[b.ID] {
+				continue
+			}
+			for _, s0 := range flow.States(sol.In[b.ID]) {
+				st := s0
+				for i, n := range b.Nodes {
+					st = au.Node(b, i, n, st)
+				}
+				if b.Return == nil {
+					continue
+				}
+				switch st {
+				case sFailed:
+					if deferCloses {
+						bads = append(bads, bad{b.Return.Pos(), "a deferred ln.close() runs on the return taken when ln.open() failed: the socket helper has already closed the descriptor whose number it reports, so the number is closed a second time – by then possibly somebody else's descriptor"})
+					}
+				case sHeldMaybeErr, sHeldErr:
+					if !deferCloses {
+						bads = append(bads, bad{b.Return.Pos(), "after ln.open() succeeded a later step can fail and its error be returned while the listening socket stays open: the callers drop a listener that comes with an error, so the descriptor leaks and the address stays bound"})
+					}
+				}
+			}
+		}
+		record = false
+		if len(bads) > 0 {
+			c.Violate(f.Name, "listener closed exactly when opened and failing", bads[0].pos, bads[0].msg)
+			continue
+		}
+		c.Ok(f.Name, "listener closed exactly when opened and failing", prodStmt.Pos(), "no close after a failed open, no error return with the socket open")
+	}
+	if sites == 0 {
+		c.Undecided("gnet", "ln.open() sites", 0, "no caller of listener.open found")
+	}
+}
